@@ -4,6 +4,7 @@ import (
 	"bytes"
 	"crypto"
 	"crypto/sha512"
+	"encoding/hex"
 	"encoding/json"
 	"errors"
 	"fmt"
@@ -23,7 +24,7 @@ import (
 	"github.com/google/go-configfs-tsm/configfs/configfsi"
 	"github.com/google/go-tdx-guest/rtmr"
 	_ "golang.org/x/crypto/blake2b" // make the other 384-bit hashes Available(), as they may be in a caller's binary
-	_ "golang.org/x/crypto/sha3"
+	"golang.org/x/crypto/sha3"
 )
 
 func init() {
@@ -533,6 +534,14 @@ func c17(x *mon.Ctx) {
 			singles = append(singles, rtmrReq{Kind: "digest", Index: i, Digest: dg(n, 7)})
 		}
 		singles = append(singles, rtmrReq{Kind: "digest", Index: i, Digest: nil})
+		// digests with a meaning of their own are digests like any other: what SHA-384 (SHA3-384, SHA-512/384) gives for the empty
+		// input, for one zero byte, all zero, all ones, an ASCII string of 48 characters
+		e384, e3 := sha512.Sum384(nil), sha3.Sum384(nil)
+		z384 := sha512.Sum384([]byte{0})
+		t512 := sha512.Sum512(nil)
+		for _, d := range [][]byte{e384[:], e3[:], z384[:], t512[:48], make([]byte, 48), bytes.Repeat([]byte{0xff}, 48), []byte("000000000000000000000000000000000000000000000000"), []byte(hex.EncodeToString(e384[:24]))} {
+			singles = append(singles, rtmrReq{Kind: "digest", Index: i, Digest: d})
+		}
 		hashes := []crypto.Hash{}
 		for h := crypto.Hash(0); h < 32; h++ { // every identifier the crypto package knows, incl. the other 48-byte digests (SHA3-384, BLAKE2b-384)
 			hashes = append(hashes, h)
@@ -553,6 +562,11 @@ func c17(x *mon.Ctx) {
 	// event logs at sizes where a chunked reader meets its buffer boundary (64 KiB, 1 MiB and multiples, one byte either side)
 	for k, n := range []int{65535, 65536, 65537, 1<<20 - 1, 1 << 20, 1<<20 + 1, 1<<20 + 1<<19, 2 << 20, 3 << 20, 4<<20 + 1} {
 		hs = append(hs, &rtmrHistory{Reqs: []rtmrReq{{Kind: "log", Index: k % 4, Hash: uint(crypto.SHA384), Log: dg(n, byte(k))}, {Kind: "digest", Index: k % 4, Digest: dg(48, 9)}}})
+	}
+	{ // a history of such digests on two registers (every one of them is extended, in order)
+		e384, z := sha512.Sum384(nil), make([]byte, 48)
+		hs = append(hs, &rtmrHistory{Reqs: []rtmrReq{{Kind: "digest", Index: 2, Digest: dg(48, 1)}, {Kind: "digest", Index: 2, Digest: e384[:]}, {Kind: "digest", Index: 3, Digest: z}, {Kind: "digest", Index: 2, Digest: bytes.Repeat([]byte{0xff}, 48)},
+			{Kind: "digest", Index: 3, Digest: e384[:]}, {Kind: "log", Index: 2, Hash: uint(crypto.SHA384), Log: []byte("x")}, {Kind: "digest", Index: 2, Digest: e384[:]}}})
 	}
 	// ... and far beyond (a log is hashed whole, whatever its size): 16 MiB and 32 MiB either side, more in the thorough tier
 	bigs := []int{16<<20 - 1, 16 << 20, 16<<20 + 1, 32<<20 + 5}
